@@ -1,7 +1,7 @@
 SPECIFICATION Spec
 CONSTANTS
   MaxLen = 4
-  Chunkings = {"whole", "perreq", "bytes", "allsplits"}
+  Chunkings = {"whole", "perreq", "bytes", "allsplits", "nextsplits"}
   SplitMaxLen = 2
 INVARIANTS RepliesNeverOutrun RepliedBeforeBlocking QuitStops AllAnswered Export
 CHECK_DEADLOCK FALSE
